@@ -50,6 +50,8 @@ def check_sequence(case):
             rc = op["removeCache"]
             if lastT is not None and abs(T[0] - lastT) > 1:
                 jumped = True
+            if lastT is not None and 0 < abs(T[0] - lastT) < 0.1:
+                out.label("tiny_temperature_change")
             lastT = T[-1]
             xarg = (x[:, 0].copy() if n > 1 else float(x[0, 0])) if cfg["binary"] else (x.copy() if n > 1 else x[0].copy())
             Targ = T.copy() if n > 1 else float(T[0])
@@ -164,7 +166,8 @@ def check_sequence(case):
                 for i in range(n):
                     r = np.asarray(ref_scalar(i, lambda o, xi, Ti: fn(o, xi, Ti, True)), dtype=float)
                     ai = a[i] if n > 1 else a
-                    if not _same(ai, r, 1e-6, 1e-6 * float(np.max(np.abs(r)))):      # tiny off-diagonal terms carry the solver noise of the large ones
+                    # interdiffusivity: tiny off-diagonal terms carry the solver noise of the large ones; tracer diffusivities are judged entry by entry
+                    if not _same(ai, r, 1e-6, 1e-6 * float(np.max(np.abs(r))) if kind == "D" else 0.0):
                         out.fail("diffusivity_history_dependent", "%s op %d (%s, removeCache=%s, element %d of %d): %r vs cache-free %r" % (case["system"], k, kind, rc, i, n, np.asarray(ai).tolist(), r.tolist()), removeCache=bool(rc))
             out.label("op_" + kind)
     finally:
@@ -189,9 +192,9 @@ def _seq(draw):
         n = draw(st.sampled_from([1, 1, 2, 3]))
         if kind in ("ic", "growth", "icm"):
             n = 1
-        jump = draw(st.sampled_from([0.0, 0.0, 1.0, 25.0, -60.0, 150.0, -200.0]))
+        jump = draw(st.sampled_from([0.0, 0.0, 1.0, 25.0, -60.0, 150.0, -200.0, 0.004, -0.007, 0.02]))      # incl. changes far below any "same state" tolerance a cache might use
         Ts = [float(np.clip(T0 + jump + 7.0 * i, cfg["T"][0], cfg["T"][1])) for i in range(n)]
-        xs = [[float(np.clip(b * draw(st.sampled_from([1.0, 1.0, 0.7, 1.3, 0.4])), lo, hi)) for b, (lo, hi) in zip(base, cfg["x"])] for _ in range(n)]
+        xs = [[float(np.clip(b * draw(st.sampled_from([1.0, 1.0, 0.7, 1.3, 0.4, 1.0 + 4e-6, 1.0 - 8e-6])), lo, hi)) for b, (lo, hi) in zip(base, cfg["x"])] for _ in range(n)]
         op = {"kind": kind, "x": xs, "T": Ts, "phase": draw(st.integers(0, 4)), "removeCache": draw(st.booleans())}
         if kind in ("ic", "icm"):
             op["g"] = sorted(10 ** draw(st.floats(0, 4.3)) for _ in range(draw(st.integers(1, 5))))
@@ -200,6 +203,17 @@ def _seq(draw):
             op["R"] = sorted(10 ** draw(st.floats(-9.3, -7.5)) for _ in range(m))
             op["gE"] = [2 * 0.1 * 1e-5 / r for r in op["R"]]
         ops.append(op)
+        if kind in ("D", "Dt") and draw(st.integers(0, 1)) == 1:
+            # near-repeat: the same query (or the other diffusivity) at a state that differs by far less than any
+            # "same state" tolerance, right after a query that kept its cache
+            op["removeCache"] = False
+            d = draw(st.sampled_from([0.004, -0.007, 0.02]))
+            # (the cache holds the state evaluated last: the last element of an array query)
+            op2 = {"kind": draw(st.sampled_from(["D", "Dt", "Dt"])), "x": [list(xs[-1])], "T": [Ts[-1] + d], "phase": op["phase"], "removeCache": draw(st.booleans())}
+            if draw(st.booleans()):
+                op2["T"] = [Ts[-1]]
+                op2["x"] = [[float(np.clip(v * (1 + 6e-6), lo, hi)) for v, (lo, hi) in zip(xs[-1], cfg["x"])]]
+            ops.append(op2)
         if draw(st.booleans()):          # repeat of an earlier query later in the sequence
             ops.append(dict(op))
     return {"system": name, "ops": ops}
@@ -242,6 +256,6 @@ def clauses():
         Clause("gamma_prime_retained_cache", _gp_seq, check_sequence, quick=24, thorough=400, shrink=False,
                rule="generator: 2-6 tangent driving-force queries on Ni-Cr-Al gamma prime at independent random compositions/temperatures with the cached composition sets retained between them (region of open finding KF-C09-4: violations of the listed kind are counted as known, anything else is reported); non-trivial: as above"),
         Clause("query_sequences", _seq, check_sequence, quick=64, thorough=1500, shrink=False,
-               rule="generator: 2-8 queries (plus repeats and clearCache) on one thermodynamics object per system {Al-Zr binary, Al-Mg-Si with five stoichiometric phases, Ni-Cr-Al gamma prime}: driving force, interfacial composition (binary and multicomponent) / growth+interfacial composition (multicomponent), interdiffusivity, tracer diffusivity; scalar or array arguments, removeCache on/off, temperature jumps of 1-200 K; "
+               rule="generator: 2-8 queries (plus repeats and clearCache) on one thermodynamics object per system {Al-Zr binary, Al-Mg-Si with five stoichiometric phases, Ni-Cr-Al gamma prime}: driving force, interfacial composition (binary and multicomponent) / growth+interfacial composition (multicomponent), interdiffusivity, tracer diffusivity; scalar or array arguments, removeCache on/off, temperature changes from 0.004 K to 200 K and composition changes from 4e-6 relative; "
                     "oracle: every answer (and every array element) equals the answer of a second object whose caches are discarded before the query, up to the documented 1 J/mol offset; an immediate repeat gives the same answer; ndarray arguments bit-identical; non-trivial: >= 2 queries with a temperature jump, an array argument or a cache clear. Driving-force queries on the order/disorder gamma prime system are made with removeCache=True only (open finding KF-C09-4)"),
     ]
